@@ -1955,12 +1955,17 @@ XMLReader::xcodeMoreChars(          XMLCh* const            bufToFill
         {
             refreshRawBuffer();
 
-            // If there are no characters or if we need more but didn't get
-            // any, return zero now.
+            // If there are no characters, return zero now.
             //
-            if (fRawBytesAvail == 0 ||
-                (needMode && (bytesLeft == fRawBytesAvail - fRawBufIndex)))
+            if (fRawBytesAvail == 0)
                 return 0;
+
+            // If we need more bytes to complete a character but the input
+            // has none left, the entity ends inside a character: that is
+            // not a legal end of input in its encoding.
+            //
+            if (needMode && (bytesLeft == fRawBytesAvail - fRawBufIndex))
+                ThrowXMLwithMemMgr(TranscodingException, XMLExcepts::Trans_BadSrcSeq, fMemoryManager);
         }
 
         // Ask the transcoder to internalize another batch of chars. It is
